@@ -151,6 +151,17 @@ CHECKS["C12"] = (
     "DESIGN.md section 3, C12",
 )
 
+CHECKS["C15"] = (
+    "exhaustive enumeration of docstring layouts on the implementation; exact boundary/reference comparison",
+    "All 1296 docstrings of a layout grammar (3 headers x 3 section styles x 4 footers x indentation 0/4/8 x leading newline x separator x "
+    "trailing whitespace) go through the header/section/footer splitter - the parts must concatenate to the original (exactly, or exactly "
+    "up to the function's deliberate re-indentation) and the boundaries are compared with the ones known by construction (signed line "
+    "offset, mid-line flag) - and through parse -> emit into every target style, where every header prose line must survive in order and no "
+    "prose line may end up in a parsed type or default.",
+    "layout grammar is small (2 parameters + return); conversions run with word_wrap=False",
+    "DESIGN.md section 3, C15",
+)
+
 PENDING_REASON = "check not built yet in this revision (planned, see DESIGN.md section 3); no claim is made"
 
 
